@@ -154,12 +154,32 @@ func (h *harness) run(cfg config, alpha []tm.Event, seq []int) (hs *hist) {
 // cutsOf is set while a cut-point family is explored (nil: the full alphabet of a short stream)
 var cutsOf []int
 
+// famName is the family being explored (recorded in replay files)
+var famName string
+
+const budgetN = 4300
+
+func budgetDepth(thorough bool) int {
+	if thorough {
+		return 6
+	}
+	return 5
+}
+
+// budgetAlphabet: [0,50) fills the gap, [50,100) is a short run behind it, [150,4050) spans three
+// pages and [150,2150) two (neither contiguous with the short run), [4200,4300) and [2200,2300) lie further out.
+func budgetAlphabet() []tm.Event {
+	d := func(a, b int) tm.Event { return tm.Event{K: tm.DATA, A: a, B: b} }
+	return []tm.Event{{K: tm.SYN}, d(0, 50), d(50, 100), d(100, 150), d(150, 2150), d(150, 4050), d(2200, 2300), d(4200, 4300),
+		{K: tm.DATA, A: 4200, B: 4300, Fin: true}, {K: tm.FLUSHOLD}}
+}
+
 func describe(cfg config, alpha []tm.Event, seq []int, n int) map[string]any {
 	var ev []string
 	for _, i := range seq {
 		ev = append(ev, alpha[i].String())
 	}
-	return map[string]any{"n": n, "cuts": cutsOf, "isn": cfg.isn, "max_pages_per_conn": cfg.perConn, "max_pages_total": cfg.total, "events": ev, "seq": append([]int(nil), seq...)}
+	return map[string]any{"n": n, "cuts": cutsOf, "family": famName, "isn": cfg.isn, "max_pages_per_conn": cfg.perConn, "max_pages_total": cfg.total, "events": ev, "seq": append([]int(nil), seq...)}
 }
 
 func main() {
@@ -205,6 +225,10 @@ func main() {
 			alpha = tm.AlphabetCuts(f.Replay.Cuts, true, false)
 			cutsOf = f.Replay.Cuts
 		}
+		if f.Replay.Family == "budget" {
+			alpha = budgetAlphabet()
+			famName = "budget"
+		}
 		h := &harness{n: f.Replay.N}
 		h.reset()
 		cfg := config{f.Replay.Isn, f.Replay.MaxPagesPerConn, f.Replay.MaxPagesTotal}
@@ -238,6 +262,7 @@ func main() {
 		isns   []uint32
 		limits [][2]int
 		depth  int
+		alpha  []tm.Event // non-nil: a hand-picked alphabet instead of every segment between cut points
 	}
 	// multi-page family: segments spanning 2 [3] assembler pages (1900 bytes each), with room
 	// for a gap in front, a queued segment behind and a segment in between
@@ -250,8 +275,12 @@ func main() {
 		mpLimits = append(mpLimits, [2]int{2, 0}, [2]int{0, 4})
 	}
 	families := []family{
-		{"short", nil, n, tm.ISNs(n), limits, depth},
-		{"multipage", mpCuts, mpCuts[len(mpCuts)-1], mpIsns, mpLimits, 5},
+		{"short", nil, n, tm.ISNs(n), limits, depth, nil},
+		{"multipage", mpCuts, mpCuts[len(mpCuts)-1], mpIsns, mpLimits, 5, nil},
+		// budget family: a short run queued behind a gap, then a segment of several pages that is
+		// not contiguous with it, then more out-of-order data - under total budgets that are used
+		// up at once and stay used up after the oldest page was forced out
+		{"budget", nil, budgetN, mpIsns, [][2]int{{0, 1}, {0, 2}, {0, 3}, {2, 2}}, budgetDepth(r.Thorough()), budgetAlphabet()},
 	}
 	var famNotes []string
 	for _, fam := range families {
@@ -261,6 +290,10 @@ func main() {
 		cutsOf = fam.cuts
 		if fam.cuts != nil {
 			alpha = tm.AlphabetCuts(fam.cuts, true, false)
+		}
+		famName = fam.name
+		if fam.alpha != nil {
+			alpha = fam.alpha
 		}
 		famNotes = append(famNotes, fmt.Sprintf("%s: stream of %d bytes, cut points %v, %d letters %v, histories of %d events, ISNs %v, page limits %v", fam.name, n, fam.cuts, len(alpha), alpha, fam.depth, fam.isns, fam.limits))
 		hs := make([]*harness, workers)
@@ -298,7 +331,7 @@ func main() {
 					}
 					if h.viol != "" {
 						key := fmt.Sprintf("c10|%s|isn=%s|limit=%v", h.viol, tm.ISNClass(cfg.isn, n), lim[0]+lim[1] > 0)
-						if fam.cuts != nil {
+						if fam.name != "short" {
 							key += "|" + fam.name
 						}
 						locals[w].Add(key, int64(len(seq)), func() (string, any) {
@@ -325,6 +358,7 @@ func main() {
 		}
 	}
 	cutsOf = nil
+	famName = ""
 	// multi-connection family: three connections through one assembler in every order
 	{
 		ma := mcAlphabet(r.Thorough())
